@@ -255,6 +255,16 @@ def gen(tier, rng):
                         ops.append({"op": "sdel", "u": u})
                     else:
                         ops.append({"op": "slist"})
+                if rep == 0:
+                    # directed: look a unit up, change its registration, look it up again at once (nothing in between) - for every
+                    # registered unit and a few others: get/del/get, get/set/get, has/del/has, set/del/get
+                    pre = []
+                    for u in [x[0] for x in reg] + [5, 247]:
+                        pre += [{"op": "sget", "u": u}, {"op": "sdel", "u": u}, {"op": "sget", "u": u}, {"op": "shas", "u": u},
+                                {"op": "sset", "u": u, "c": "C"}, {"op": "sget", "u": u}, {"op": "sset", "u": u, "c": "B"},
+                                {"op": "sget", "u": u}, {"op": "sdel", "u": u}, {"op": "shas", "u": u}, {"op": "sget", "u": u},
+                                {"op": "slist"}]
+                    ops = pre + ops
                 traces.append(server_trace("s%d" % k, single, reg, ops))
                 k += 1
     return traces
